@@ -549,7 +549,7 @@ func (e *env) keySet() (string, []uint32) {
 		hi := uint32(r.Intn(4)) << 16
 		n := 4200 + r.Intn(1200)
 		if !e.quick && r.Intn(3) == 0 {
-			n = 20000 + r.Intn(20000)
+			n = 12000 + r.Intn(10000)
 		}
 		for len(set) < n {
 			set[hi|uint32(r.Intn(65536))] = true
